@@ -7,6 +7,12 @@ from vh import registry
 
 BASE = ("cd /repo && /venv/bin/python -m pytest -ra -q -p no:cacheprovider --timeout=900 "
         "--continue-on-collection-errors")
+SELF = (" On every run TLC additionally judges corrupted copies of recorded records (they must be rejected: "
+        "self-test of the binding).")
+SCALED = (" The finite universe that TLC model-checks in the scaled world (block size 2) is also replayed "
+          "into the real code and judged by TLC against the reference and against the implementation-shaped "
+          "model's own prediction (DESIGN.md 13.7b/c).")
+COMMON = {"*": SELF, "E1-create-hashers": SCALED + SELF, "E3-recheck": SCALED + SELF, "E4-rebuild": SCALED + SELF}
 checks = []
 for pid in sorted(registry.PROPS):
     cls = registry.PROPS[pid]
@@ -17,7 +23,8 @@ for pid in sorted(registry.PROPS):
         "evidence_file": "evidence/%s.json" % pid,
         "replay_cmd_template": "./check %s --replay {path}" % pid,
         "engine": cls.engine,
-        "level_claimed": {"category": "model_checking", "text": cls.level_text, "design_ref": cls.design_ref},
+        "level_claimed": {"category": "model_checking",
+                          "text": cls.level_text + COMMON.get(cls.engine, COMMON["*"]), "design_ref": cls.design_ref},
         "level_note": cls.level_note,
         "technique": cls.technique,
     })
